@@ -17,6 +17,7 @@ func runC06(c *Ctx) {
 	c.Clause("C06.2 OnAcked only from detectAndRemoveAckedPackets, OnLost only from queueFramesForRetransmission/detectLostPathProbes; frames cleared after OnLost; every retransmission queuing is paired with DeclareLost (or a replaced space); every OnAcked iteration is followed by history.Remove")
 	c.Clause("C06.3 ACK for unsent / skipped packet numbers is PROTOCOL_VIOLATION before any packet is treated as acknowledged")
 	c.Clause("C06.4 loss-detection timer is re-armed after every event that changes what is outstanding; lossDetectionTime cancels only on its two documented conditions")
+	c.Clause("C06.5 the positional sent-packet history stores a placeholder for a skipped number exactly when it is non-empty, the condition under which firstPacketNumber is not re-based")
 	c.NotCovered("the sum invariant bytesInFlight = Σ outstanding sizes over histories")
 	c.NotCovered("timer values and PTO arithmetic")
 	c.NotCovered("exactly-once over interleavings of Retry/0-RTT rejection with ACK processing")
@@ -25,6 +26,7 @@ func runC06(c *Ctx) {
 	c.rule("C06.2", func() { c06Callbacks(c) })
 	c.rule("C06.3", func() { c06AckValidation(c) })
 	c.rule("C06.4", func() { c06Timer(c) })
+	c.rule("C06.5", func() { c06PositionalHistory(c) })
 }
 
 // ifaceCallSites: invoke calls of an interface method plus static calls of concrete
